@@ -282,30 +282,75 @@ func suffixResliceOfSameField(st *ssa.Store) string {
 // condition assume() decides are followed only along the decided edge.
 func reachUnder(f *ssa.Function, assume func(cond ssa.Value) int) map[*ssa.BasicBlock]bool {
 	reach := map[*ssa.BasicBlock]bool{}
-	var walk func(b *ssa.BasicBlock)
-	walk = func(b *ssa.BasicBlock) {
-		if reach[b] {
-			return
+	if len(f.Blocks) == 0 {
+		return reach
+	}
+	type edge struct{ from, to *ssa.BasicBlock }
+	live := map[edge]bool{}
+	// decide: the outcome of a branch condition under the assumptions.  Conditions that a
+	// short-circuit && / || or a tagless switch evaluated as a value arrive as phis of
+	// constants and sub-conditions: they are decided when every incoming edge that can be
+	// taken agrees.
+	var decide func(cond ssa.Value, depth int) int
+	decide = func(cond ssa.Value, depth int) int {
+		if d := assume(cond); d != 0 || depth > 4 {
+			return d
 		}
-		reach[b] = true
-		if len(b.Instrs) > 0 {
+		switch x := cond.(type) {
+		case *ssa.Const:
+			if x.Value != nil && x.Value.Kind() == constant.Bool {
+				if constant.BoolVal(x.Value) {
+					return 1
+				}
+				return -1
+			}
+		case *ssa.UnOp:
+			if x.Op == token.NOT {
+				return -decide(x.X, depth+1)
+			}
+		case *ssa.Phi:
+			res, set := 0, false
+			for i, e := range x.Edges {
+				if !live[edge{x.Block().Preds[i], x.Block()}] {
+					continue
+				}
+				d := decide(e, depth+1)
+				if d == 0 || (set && d != res) {
+					return 0
+				}
+				res, set = d, true
+			}
+			return res
+		}
+		return 0
+	}
+	reach[f.Blocks[0]] = true
+	for changed := true; changed; {
+		changed = false
+		for _, b := range f.Blocks {
+			if !reach[b] || len(b.Instrs) == 0 {
+				continue
+			}
+			succs := b.Succs
 			if iff, ok := b.Instrs[len(b.Instrs)-1].(*ssa.If); ok {
-				switch assume(iff.Cond) {
+				switch decide(iff.Cond, 0) {
 				case 1:
-					walk(b.Succs[0])
-					return
+					succs = b.Succs[:1]
 				case -1:
-					walk(b.Succs[1])
-					return
+					succs = b.Succs[1:]
+				}
+			}
+			for _, s := range succs {
+				if !live[edge{b, s}] {
+					live[edge{b, s}] = true
+					changed = true
+				}
+				if !reach[s] {
+					reach[s] = true
+					changed = true
 				}
 			}
 		}
-		for _, s := range b.Succs {
-			walk(s)
-		}
-	}
-	if len(f.Blocks) > 0 {
-		walk(f.Blocks[0])
 	}
 	return reach
 }
